@@ -50,6 +50,27 @@
         // ---- abstract Dictionary: ghost Map<Name, Primitive>; the six operations the expansions use are env stubs
         //      with IndexMap semantics (trusted; order of entries is not modelled) ------------------------------
         pub type DMap = Map<Seq<char>, Primitive>;
+        // (extension for `expansions_all`) removal / insertion of an entry as *closed* spec functions with their pointwise
+        // characterisation broadcast -- the same facts as vstd's Map::remove / Map::insert (lemma_del_def / lemma_ins_def), without
+        // the set-level axioms (dom() as a finite Set: remove / insert / len / finite) that fire on every pair (prefix, key) of a
+        // 20-entry reader and made the derived readers of the large models run into the resource limit
+        pub closed spec fn del(m: DMap, k: Seq<char>) -> DMap { m.remove(k) }
+        pub closed spec fn ins(m: DMap, k: Seq<char>, v: Primitive) -> DMap { m.insert(k, v) }
+        pub broadcast proof fn lemma_del_dom(m: DMap, k: Seq<char>, j: Seq<char>)
+            ensures #[trigger] del(m, k).dom().contains(j) <==> (j != k && m.dom().contains(j))
+        {}
+        pub broadcast proof fn lemma_del_index(m: DMap, k: Seq<char>, j: Seq<char>)
+            ensures j != k ==> #[trigger] del(m, k)[j] == m[j]
+        {}
+        pub broadcast proof fn lemma_ins_dom(m: DMap, k: Seq<char>, v: Primitive, j: Seq<char>)
+            ensures #[trigger] ins(m, k, v).dom().contains(j) <==> (j == k || m.dom().contains(j))
+        {}
+        pub broadcast proof fn lemma_ins_index(m: DMap, k: Seq<char>, v: Primitive, j: Seq<char>)
+            ensures #[trigger] ins(m, k, v)[j] == (if j == k { v } else { m[j] })
+        {}
+        pub proof fn lemma_del_def(m: DMap, k: Seq<char>) ensures del(m, k) == m.remove(k) {}
+        pub proof fn lemma_ins_def(m: DMap, k: Seq<char>, v: Primitive) ensures ins(m, k, v) == m.insert(k, v) {}
+        pub broadcast group group_dict { lemma_del_dom, lemma_del_index, lemma_ins_dom, lemma_ins_index }
         pub struct Dictionary { pub m: Ghost<DMap> }
         pub uninterp spec fn as_name_err(p: Primitive) -> PdfError;
         pub open spec fn expect_spec(m: DMap, typ: &'static str, key: Seq<char>, value: Seq<char>, required: bool) -> Result<()> {
@@ -66,12 +87,12 @@
             pub fn new() -> (r: Dictionary) ensures r@ == Map::<Seq<char>, Primitive>::empty() { unimplemented!() }
             #[verifier::external_body]
             pub fn insert(&mut self, key: &str, val: Primitive) -> (r: Option<Primitive>)
-                ensures final(self)@ == old(self)@.insert(key@, val),
+                ensures final(self)@ == ins(old(self)@, key@, val),
                     r == (if old(self)@.dom().contains(key@) { Some(old(self)@[key@]) } else { None::<Primitive> })
             { unimplemented!() }
             #[verifier::external_body]
             pub fn remove(&mut self, key: &str) -> (r: Option<Primitive>)
-                ensures final(self)@ == old(self)@.remove(key@),
+                ensures final(self)@ == del(old(self)@, key@),
                     r == (if old(self)@.dom().contains(key@) { Some(old(self)@[key@]) } else { None::<Primitive> })
             { unimplemented!() }
             #[verifier::external_body]
